@@ -165,8 +165,24 @@ def check(run: Run) -> None:
             return Expect(stores=st)
         R.k1(run, "C08.e", fa, roles, spec, what="graph scheduler slot/cache rule")
 
+    with run.obligation("C08.f", "K2+K1+K9", "a reader marked passive() really is passive: each passive slot is removed from the node's active list before "
+                        "the node identity is computed and the marker survives canonicalisation/interning, so a loop closed through a passive "
+                        "feedback reader is not re-woken by the delivery (shared with C03.e, C03.e2, C03.e3)"):
+        from . import c03
+        sub = Run("C08", run.tier, run.tree, quiet=True)
+        c03.check(sub)
+        run.evaluations += sub.evaluations
+        run.count(1, "C08.f")
+        for f in sub.findings:
+            if f.rule in ("C03.e", "C03.e2", "C03.e3"):
+                run.finding("C08.f", f.key, f.message, f.loc)
+        for e in sub.errors:
+            if e.startswith("C03.e"):
+                raise AnalysisError("model-mismatch", e)
+
 
 VARIANTS = [
+    {"id": "f-passive-erase-by-position", "expect": "C08.f", "edits": [{"file": "src/hgraph/runtime/node.cpp", "find": "std::erase(active, slot);", "replace": "active.erase(active.begin() + static_cast<std::ptrdiff_t>(slot));"}]},
     {"id": "a-same-cycle", "expect": "C08.a", "edits": [{"file": FB, "find": "graph->schedule_node(source_node.node_index(), evaluation_time + MIN_TD);", "replace": "graph->schedule_node(source_node.node_index(), evaluation_time);"}]},
     {"id": "a-two-steps", "expect": "C08.a", "edits": [{"file": FB, "find": "graph->schedule_node(source_node.node_index(), evaluation_time + MIN_TD);", "replace": "graph->schedule_node(source_node.node_index(), evaluation_time + MIN_TD + MIN_TD);"}]},
     {"id": "a-schedule-before-state", "expect": "C08.a", "edits": [{"file": FB, "find": "            const ValueView state = source_node.state();\n            if (!try_copy_feedback_state(state, ts.delta_value()))\n            {\n                source_node.replace_state(capture_delta(ts));\n            }\n\n            GraphValue *graph = source_node.graph_value();\n            if (graph == nullptr)\n            {\n                throw std::logic_error(\"feedback sink target node is not attached to a graph\");\n            }\n            graph->schedule_node(source_node.node_index(), evaluation_time + MIN_TD);", "replace": "            GraphValue *graph = source_node.graph_value();\n            if (graph == nullptr)\n            {\n                throw std::logic_error(\"feedback sink target node is not attached to a graph\");\n            }\n            graph->schedule_node(source_node.node_index(), evaluation_time + MIN_TD);\n            const ValueView state = source_node.state();\n            if (!try_copy_feedback_state(state, ts.delta_value()))\n            {\n                source_node.replace_state(capture_delta(ts));\n            }"}]},
